@@ -31,6 +31,7 @@ async def debounced_sorted_prefix(
     """
 
     buffer: list[T] = []
+    flushed = False
     debouncer = Debouncer(debounce_seconds, max_window_seconds)
     merged = merge_generators(inner, debouncer.aiter())
 
@@ -40,10 +41,13 @@ async def debounced_sorted_prefix(
             for buffered_item in buffer:
                 yield buffered_item
             buffer = []
+            flushed = True
         else:
             # item is T after checking != "__COMPLETE__"
             actual_item = cast(T, item)
-            if debouncer.is_complete:
+            # Passthrough starts once the burst has been flushed, not when the window
+            # closes: an item delivered between the two must not overtake the burst.
+            if flushed:
                 yield actual_item
             else:
                 debouncer.extend_window()
